@@ -38,7 +38,7 @@ CMP = ["<=", ">=", "<", ">"]
 # names: dashes, underscores, digits - and ordinary words that happen to mean something to a computer algebra system
 LIFTED = ["(fuel ?a)", "(dist ?c1 ?c2)", "(cap-x ?a)", "(load_limit ?t1)", "(zoom2 ?a ?b)", "(total-cost )", "(limit ?a)", "(gamma )"]
 GROUNDED = ["(fuel a1)", "(dist c1 c2)", "(cap-x t-1)", "(load_limit t_2)", "(f-a b)", "(f a-b)", "(total-cost )", "(x9 o1 o1)",
-            "(max c1)", "(pi )", "(test t-1)", "(sum )"]
+            "(max c1)", "(pi )", "(test t-1)", "(sum )", "(d e f)", "(i s)"]
 GRID = [Fraction(x) for x in (-3, -1, 0, 1, 2, 5)] + [Fraction(-1, 2), Fraction(1, 4)]
 
 
